@@ -364,6 +364,30 @@ def CapRace.exec (s : CapRace) : List Nat → CapRace
   | [] => s
   | t :: ts => (s.step t).exec ts
 
+/-- ... repaired: `Location.admission` makes the test and the addition it admits one step. An adder is `start`, then holds the
+admission lock with the test's answer (`checked`), then adds (or not) and releases. A scheduling decision for a thread that
+wants the lock while another holds it does nothing. -/
+structure CapLocked where
+  maxFacts : Int
+  count : Nat
+  holder : Option Nat
+  pcs : List APc
+  deriving Repr, DecidableEq
+
+def CapLocked.step (s : CapLocked) (tid : Nat) : CapLocked :=
+  match s.pcs[tid]? with
+  | some .start =>
+    (match s.holder with
+     | none => { s with holder := some tid, pcs := s.pcs.set tid (.checked (atCapacity s.maxFacts s.count)) }
+     | some _ => s)
+  | some (.checked false) => { s with count := s.count + 1, holder := none, pcs := s.pcs.set tid .done }
+  | some (.checked true) => { s with holder := none, pcs := s.pcs.set tid .done }
+  | _ => s
+
+def CapLocked.exec (s : CapLocked) : List Nat → CapLocked
+  | [] => s
+  | t :: ts => (s.step t).exec ts
+
 /-! ## arrival patterns -/
 
 /-- the call times `t0 + δ, t0 + 2δ, …, t0 + nδ` (steady polling) -/
